@@ -65,6 +65,14 @@ Str join_path(const std::vector<Str> &v);
 struct Expected { RUri t; Str path, alt_path; bool has_alt; int regime; Expected() : has_alt(false), regime(0) {} };
 bool resolve_expected(const RUri &base, const RUri &r, bool strict, Expected &e);
 
+// RFC 3986 6.2.2 syntax-based normal form of the components selected by `mask` (library mask bits).
+// `path_alts`: other spellings the statement does not distinguish (only the "relative path reduces to the
+// current directory" corner: "." and "./").
+enum { N_SCHEME = 1, N_USER = 2, N_HOST = 4, N_PATH = 8, N_QUERY = 16, N_FRAGMENT = 32, N_ALL = 63 };
+struct Normal { RUri u; std::vector<Str> path_alts; };
+void normalize(const RUri &in, unsigned mask, Normal &out);
+bool path_matches(const Normal &n, const Str &path_text);
+
 // percent-encoding helpers
 Str upper_hex_triplets(const Str &s);      // %aa -> %AA (only well-formed triplets)
 Str decode_unreserved(const Str &s);       // %41 -> A, %7e -> ~ ; others kept (hex upper-cased)
